@@ -111,7 +111,8 @@ def generate(job: dict) -> dict:
             target = section["target_file_path"]
         for rel, content in (job.get("preexisting") or {}).items():
             p = os.path.join(target, rel) if strategy == "client" else target
-            os.makedirs(os.path.dirname(p), exist_ok=True)
+            if os.path.dirname(p):
+                os.makedirs(os.path.dirname(p), exist_ok=True)
             with open(p, "w", encoding="utf-8") as f:
                 f.write(content)
         if job.get("plugins_path"):
@@ -191,7 +192,8 @@ def pkg_eval(job: dict) -> dict:
         pdir = os.path.join(base, pkg)
         for rel, content in job["files"].items():
             p = os.path.join(pdir, rel)
-            os.makedirs(os.path.dirname(p), exist_ok=True)
+            if os.path.dirname(p):
+                os.makedirs(os.path.dirname(p), exist_ok=True)
             with open(p, "w", encoding="utf-8") as f:
                 f.write(content)
         for name, content in (job.get("extra") or {}).items():
